@@ -366,6 +366,9 @@ type listArg struct {
 	Type   string     `json:"type"`                           // V, *P, N
 	Custom bool       `json:"custom_type_helper"`
 	Cases  []caseSpec `json:"cases"`
+	// NilValue: for T = *P in the Unmarshal helpers, cases that expect an error leave their Value nil (what a test author
+	// writes for an error case); the helper must still unmarshal into a fresh non-nil value.
+	NilValue bool `json:"nil_value_in_error_cases,omitempty"`
 }
 
 func hook[C any](kind int) func(int, *C) error {
@@ -540,6 +543,9 @@ func probe(a listArg) (kind, detail string) {
 				if m {
 					return &P{Script: c.Script, Payload: rightPayload}
 				}
+				if a.NilValue && c.Pred != pNil {
+					return nil
+				}
 				return &P{Payload: unmarshalExpectedPayload(c)}
 			}, th)
 		case "P":
@@ -658,6 +664,22 @@ func main() {
 						}
 					}
 				}
+			})
+		})
+		r.Phase("pointer type with a nil Value in the cases that expect an error: every single case shape with an error predicate x 3 Unmarshal helpers x {nil, custom TypeHelper}", "complete", func() {
+			r.Parallel(int64(len(singles)), 16, func(w *mc.W, i int64) {
+				c := singles[i]
+				if c.Pred == pNil {
+					return
+				}
+				for _, h := range []string{"UnmarshalText", "UnmarshalBinary", "UnmarshalJSON"} {
+					for _, cu := range []bool{false, true} {
+						w.Point()
+						w.NonTrivial()
+						p.Do(w, listArg{Helper: h, Type: "*P", Custom: cu, Cases: []caseSpec{c}, NilValue: true})
+					}
+				}
+				w.Outcome("nil Value")
 			})
 		})
 		r.Sample("single", listArg{Helper: "UnmarshalText", Type: "V", Cases: []caseSpec{{0, hOK, hNil, pNil, sWrong, false}}})
